@@ -101,6 +101,21 @@ def replay_case(case):
                     sub = sub.reset_index(drop=True)
                 bad += judge(case["picked"], reuse(s, sub, path), b, "row-selection:")
                 n += 1
+    # ModelSpec.subset: every restriction of the recorded spec to some of its terms (MC_Reuse!SubsetReuse), replayed on the follow-up frame
+    if not case["sel"] and case.get("subsets"):
+        terms = list(spec.formula)
+        if len(terms) != max(len(x["pos"]) for x in case["subsets"]):
+            raise MachineryError(f"the recorded formula has {len(terms)} terms, the model's {max(len(x['pos']) for x in case['subsets'])}: {case['formula']}")
+        for x in case["subsets"]:
+            b = {**base, "spec": "spec.subset(terms " + ",".join(str(i) for i in x["pos"]) + ")"}
+            try:
+                sub_spec = spec.subset([terms[i - 1] for i in x["pos"]])
+            except Exception as e:  # noqa
+                bad.append({**b, "clause": "subset:subset-failed", "observed": type(e).__name__ + ": " + str(e)[:100]})
+                continue
+            path = ("spec.get_model_matrix", "model_matrix(spec, data)")[(len(x["pos"]) + x["pos"][0] + case["u"]) % 2]
+            bad += judge(x["out"], reuse(sub_spec, Udf, path), {**b, "path": path}, "subset:")
+            n += 1
     if repr(sorted((k, repr(v)) for k, v in spec.transform_state.items())) + repr(spec.column_names) != state_before:
         bad.append({**base, "clause": "reuse-changed-the-spec"})
     # gamma side: the model has no notion of the container of the result, so every case also stands for the spec recorded by a fit
